@@ -125,6 +125,13 @@ func (t *Tree) backup3() {
 	t.backup()
 }
 
+// backupTo pushes back every token read since the read stack held n tokens.
+func (t *Tree) backupTo(n int) {
+	for len(t.read) > n {
+		t.backup()
+	}
+}
+
 // next returns the next unread token and advances the internal cursor by one.
 func (t *Tree) next() token {
 	verifParseStep()
